@@ -988,7 +988,11 @@ def rule_continuation(m, rid, omp=False):
             lines = [] if first else ["x = 1 + "]
             n0 = len(lines)
             # one whole iteration of the free-form loop on one physical line (comment handling is the identity on these lines)
-            me = PE.Obj({"linecount": 7, "f2py_comment_lines": [], "comment_item": lambda *a, **k: ("comment",) + a})
+            fmt_ = PE.Obj({"is_free": True, "is_fixed": False, "is_fix": False, "is_f77": False, "is_pyf": False, "is_strict": False,
+                           "f2py_enabled": False, "mode": "free"})
+            me = PE.Obj({"linecount": 7, "f2py_comment_lines": [], "comment_item": lambda *a, **k: ("comment",) + a,
+                         "_format": fmt_, "format": fmt_, "_include_omp_conditional_lines": bool(omp), "process_directives": False,
+                         "_ignore_comments": False})
             if omp:
                 me.fields["_re_omp_sentinel_cont"] = omp_rx
                 me.fields["replace_omp_sentinels"] = lambda l_, rx_: ev.run_function(omp_fn.node, [l_, rx_])
@@ -1015,7 +1019,11 @@ def rule_continuation(m, rid, omp=False):
             r.instances += 1
             rest = list(phys[1:])
             lines = []
-            me = PE.Obj({"linecount": 7, "f2py_comment_lines": [], "comment_item": lambda *a, **k: ("comment",) + a})
+            fmt_ = PE.Obj({"is_free": True, "is_fixed": False, "is_fix": False, "is_f77": False, "is_pyf": False, "is_strict": False,
+                           "f2py_enabled": False, "mode": "free"})
+            me = PE.Obj({"linecount": 7, "f2py_comment_lines": [], "comment_item": lambda *a, **k: ("comment",) + a,
+                         "_format": fmt_, "format": fmt_, "_include_omp_conditional_lines": bool(omp), "process_directives": False,
+                         "_ignore_comments": False})
             if omp:
                 me.fields["_re_omp_sentinel_cont"] = omp_rx
                 me.fields["replace_omp_sentinels"] = lambda l_, rx_: ev.run_function(omp_fn.node, [l_, rx_])
